@@ -731,6 +731,9 @@ impl<'r> Gen<'r> {
         for _ in 0..n {
             if !self.shorthands.is_empty() && self.rng.chance(1, 5) {
                 let (name, ty) = self.shorthands[self.rng.below(self.shorthands.len())].clone();
+                if ty == Ty::GNode && sharing != Sharing::Fresh {
+                    continue;
+                }
                 self.feature("shorthand_use");
                 let value = if sharing == Sharing::Fresh {
                     self.expr(&ty, ctx, depth + 1, false)
@@ -764,6 +767,11 @@ impl<'r> Gen<'r> {
                 name,
                 value: Some(value),
             });
+        }
+        if out.is_empty() {
+            // an attr statement needs at least one attribute
+            let name = self.fresh("a");
+            out.push(GAttr { name, value: None });
         }
         out
     }
@@ -1465,12 +1473,23 @@ impl<'r> Gen<'r> {
             for si in 0..n {
                 let name = format!("sh{}", si);
                 let var = self.fresh("p");
-                let ty = if self.rng.chance(1, 2) { Ty::Str } else { Ty::Int };
+                let ty = match self.rng.below(5) {
+                    0 | 1 => Ty::Str,
+                    2 | 3 => Ty::Int,
+                    _ => Ty::GNode,
+                };
                 let mut attrs = vec![GAttr {
                     name: format!("{}_raw", name),
                     value: Some(GExpr::var(&var)),
                 }];
-                if ty == Ty::Str {
+                if ty == Ty::GNode {
+                    // the parameter is used twice: a `(node)` argument must be evaluated once
+                    attrs.push(GAttr {
+                        name: format!("{}_again", name),
+                        value: Some(GExpr::List(vec![GExpr::var(&var), GExpr::var(&var)])),
+                    });
+                    self.feature("shorthand_with_graph_node_parameter");
+                } else if ty == Ty::Str {
                     attrs.push(GAttr {
                         name: format!("{}_fmt", name),
                         value: Some(GExpr::call("format", vec![GExpr::str("<{}>"), GExpr::var(&var)])),
@@ -1512,6 +1531,7 @@ impl<'r> Gen<'r> {
         // scoped schema: definers first
         let mut stanzas: Vec<GStanza> = Vec::new();
         let mut definers: Vec<GStanza> = Vec::new();
+        let mut late_definers: Vec<GStanza> = Vec::new();
         if self.rng.chance(4, 5) {
             // per-node graph nodes
             let kinds: &[&'static str] = &["identifier", "call", "function_definition", "string", "integer", "block", "expression_statement", "class_definition"];
@@ -1544,10 +1564,30 @@ impl<'r> Gen<'r> {
                     // schema entry already exists for the name; add the definer only
                     let before = self.schema.len();
                     if let Some(st) = self.definer_stanza(definers.len(), kind, &[(name.clone(), Ty::GNode, true, false)]) {
-                        definers.push(st);
+                        if self.cfg.scoped_mut && !self.cfg.forward_refs && self.rng.chance(1, 2) {
+                            late_definers.push(st);
+                        } else {
+                            definers.push(st);
+                        }
                         self.feature("inherit_override");
                     }
                     self.schema.truncate(before);
+                }
+            }
+            if self.cfg.scoped_mut && self.rng.chance(1, 3) {
+                // a mutable inherited value on the module, updated by a later stanza
+                let iname = "counter".to_string();
+                items.push(Item::Inherit(iname.clone()));
+                if let Some(st) = self.definer_stanza(definers.len(), "module", &[(iname.clone(), Ty::Int, true, true)]) {
+                    definers.push(st);
+                    let upd = GStanza {
+                        query: "(module) @mod".into(),
+                        pool: POOL.iter().position(|q| q.text == "(module) @mod"),
+                        stmts: vec![stmt(StmtKind::Set(GVar::s(GExpr::cap("mod"), &iname), GExpr::Int(self.rng.below(1000) as u32)))],
+                        loc: Loc::default(),
+                    };
+                    late_definers.push(upd);
+                    self.feature("mutable_inherited_updated_later");
                 }
             }
             if self.rng.chance(1, 3) {
@@ -1588,7 +1628,18 @@ impl<'r> Gen<'r> {
                 items.push(Item::Stanza(s));
             }
         } else {
-            for s in definers.into_iter().chain(stanzas.into_iter()) {
+            let mut all: Vec<GStanza> = definers.into_iter().chain(stanzas.into_iter()).collect();
+            if self.cfg.scoped_mut && !late_definers.is_empty() {
+                // strict only: a nearer definition (or an update of a mutable inherited value)
+                // may arrive after some readers have run; later readers must see it
+                for st in late_definers.drain(..) {
+                    let lo = base.min(all.len());
+                    let at = self.rng.range(lo, all.len());
+                    all.insert(at, st);
+                    self.feature("definition_between_readers");
+                }
+            }
+            for s in all {
                 items.push(Item::Stanza(s));
             }
         }
